@@ -43,7 +43,7 @@ def numRelationOk (r : NumRelation) : Bool :=
   match norm (closeRel r.lhs), norm (closeRel r.rhs) with
   | some m, some n =>
     n.coef != 0 && [piLo, piHi].all (fun p =>
-      match (m.quot n).evalQ p baseQ with
+      match (m.quot n).evalAtPi p baseQ with
       | some v => within v 1 r.cls.tol
       | none => false)
   | _, _ => false
@@ -147,6 +147,11 @@ def unitVsConstOk (k : String) (e : Entry Rat) : Bool :=
 
 def unitAndConstantAgree (excl : List String) : Bool :=
   (defaultLut Rat).all fun p => excl.contains p.1 || unitVsConstOk p.1 p.2
+
+def unitVsConstOkByName (k : String) : Bool :=
+  match (defaultLut Rat).find? k with
+  | some e => unitVsConstOk k e
+  | none => false
 
 def oneBits : Nat := 4607182418800017408
 
